@@ -553,7 +553,7 @@ impl<'a> Parser<'a> {
         let bytes = self.re.as_bytes();
         let mut ix = ix + 1; // skip opening '['
         let mut class = String::new();
-        let mut nest = 1;
+        let mut nest: usize = 1;
         class.push('[');
 
         // Negated character class
